@@ -300,6 +300,7 @@ def run_cases(draw):
     c["evolutions"] = draw(st.integers(1, 3))
     c["pygmo_seed"] = draw(st.integers(0, 100000))
     c["rewrite_targets"] = draw(st.sampled_from([False, False, True]))
+    c["range_entry"] = draw(st.sampled_from(["ctor", "ctor", "setter", "override"]))
     # a stochastic pipeline made reproducible by the declared pipeline_seed: the figure of merit and the returned data are those of the seeded run
     if draw(st.booleans()):
         c["noise"], c["pipeline_seed"] = draw(st.sampled_from([0.5, 3.0])), draw(st.integers(0, 2**31 - 1))
@@ -328,8 +329,21 @@ def _run_once(case, rec, where):
     spec, targets, warrays = _spec(case, rec.tmp, algo={"type": "sade", "generations": 2, "population_size": 8},
                                    pygmo_seed=case["pygmo_seed"], num_islands=case["islands"], num_evolutions=case["evolutions"])
     res = None
+    entry = case.get("range_entry", "ctor") if case["target_fit_range"] is not None else "ctor"
+    rec.cls(f"run:ranges_declared_by:{entry}")
     with rec.must_not_raise(f"valid_calibration_failed[{case['range_class']},{'td' if case['time_domain'] else '2d'},{case['weights']}]"):
-        res = pyx.run(pyx.build(spec), with_inherited_coords=True)
+        if entry == "ctor":
+            res = pyx.run(pyx.build(spec), with_inherited_coords=True)
+        else:
+            # the Calibration object is constructed without fit ranges (= everything); the declared ranges are given afterwards, through the
+            # attributes or through a run_mode override: they are what the calibration must use
+            declared_t, declared_r = list(spec["mode"].pop("target_fit_range")), list(spec["mode"].pop("result_fit_range"))
+            cfg = pyx.build(spec)
+            if entry == "setter":
+                cfg.mode.target_fit_range, cfg.mode.result_fit_range = declared_t, declared_r
+                res = pyx.run(cfg, with_inherited_coords=True)
+            else:
+                res = pyx.run(cfg, with_inherited_coords=True, override_dct={"calibration.target_fit_range": declared_t, "calibration.result_fit_range": declared_r})
     if res is None:
         return
     fit = np.asarray(res["/champion/fitness"].values, dtype=float)  # (island, evolution)
